@@ -164,7 +164,9 @@ impl FraudProof for BadEncodingFraudProof {
         let mut nmt = Nmt::default();
 
         for (n, share) in rebuilt_shares.iter().enumerate() {
-            let ns = if n < ods_width {
+            // only the first quadrant holds namespaced shares, the leaves of a parity
+            // row or column all carry the parity namespace
+            let ns = if n < ods_width && usize::from(self.index) < ods_width {
                 // The reconstructed share doesn't need to hold a supported namespace,
                 // we only need its raw bytes to recompute the root.
                 match share
